@@ -98,6 +98,11 @@ DeflClauses(r) == << <<"deflated-solve-runs", r.exc = "">>,
                      <<"solves-original-system", r.exc = "" => r.rel12 <= 1000000>>,                 \* true residual <= 1e-6 (tol 1e-10)
                      <<"residual-orthogonal-to-deflation-vectors", r.exc = "" => r.orth12 <= 100>> >> \* 1e-10
 
+\* multi-threaded set-up and projection (bounds 1e-9)
+DeflMtClauses(r) == << <<"deflated-setup-runs", r.exc = "">>,
+                       <<"residual-orthogonal-to-deflation-vectors(threads)", r.exc = "" => r.orth12 <= Tol>>,
+                       <<"projection-independent-of-thread-count", r.exc = "" => r.dx12 <= Tol>> >>
+
 Clauses(r) ==
     CASE r.k = "schur"   -> SchurClauses(r)
       [] r.k = "schurO"  -> SchurOClauses(r)
@@ -107,6 +112,7 @@ Clauses(r) ==
       [] r.k = "cprdev"  -> CprDevClauses(r)
       [] r.k = "cprO"    -> CprOClauses(r)
       [] r.k = "defl"    -> DeflClauses(r)
+      [] r.k = "deflmt"  -> DeflMtClauses(r)
       [] OTHER           -> << <<"unknown-record", FALSE>> >>
 Failed(r) == IF Has(r, "e") THEN (IF r.e = "End" THEN <<>> ELSE <<"recorder:" \o r.e>>)
              ELSE FailedOf(Clauses(r))
